@@ -221,6 +221,9 @@ def val_equal(a, b):
         if a is None or b is None or isinstance(a, str) or \
                 isinstance(b, str):
             return z3.BoolVal(False)
+        if (isinstance(a, np.ndarray) and a.size != 1) or (
+                isinstance(b, np.ndarray) and b.size != 1):
+            return z3.BoolVal(False)      # array vs. scalar
         return toreal(a) == toreal(b)
     if isinstance(a, np.ndarray) or isinstance(b, np.ndarray):
         a, b = np.asarray(a), np.asarray(b)
@@ -678,6 +681,38 @@ def replay(case, params, v):
                              "raises %r" % (data,),
                              {k: dict(ds.config[k]) for k in
                               ("calculation",)}))
+        if feat == "emodulus" and ok and str(v.get("what", "")).startswith(
+                "scenario"):
+            # documented precedence of the temperature sources
+            from dclab.features.emodulus import get_emodulus
+            calc = ds.config["calculation"]
+            med = calc.get("emodulus medium", "other")
+            if "emodulus temperature" in calc and \
+                    "emodulus viscosity" not in calc:
+                temp = calc["emodulus temperature"]
+                src = "[calculation] emodulus temperature (scenario C)"
+            elif "temp" in ds and "emodulus viscosity" not in calc:
+                temp = ds["temp"]
+                src = "the temp feature (scenario A)"
+            else:
+                temp = None
+            if temp is not None:
+                try:
+                    exp = get_emodulus(
+                        deform=ds["deform"], area_um=ds["area_um"],
+                        medium=med, channel_width=ds.config["setup"][
+                            "channel width"],
+                        flow_rate=ds.config["setup"]["flow rate"],
+                        px_um=ds.config["imaging"]["pixel size"],
+                        temperature=temp, lut_data=calc["emodulus lut"],
+                        visc_model=calc.get("emodulus viscosity model"))
+                    if not np.allclose(data, exp, equal_nan=True,
+                                       rtol=1e-12, atol=0):
+                        fails.append("precedence: emodulus is %r, with %s it "
+                                     "must be %r" % (data.tolist(), src,
+                                                     np.asarray(exp).tolist()))
+                except Exception:
+                    pass
         ds2 = make()
         for sec in ("calculation", "imaging", "setup"):
             for k in list(ds2.config[sec].keys()):
@@ -733,6 +768,8 @@ def classify(msg, p, v):
             return "fl_max_ctc|available-but-raises|three-channels-" \
                    "incomplete-matrix"
         return fam + "|availability|" + msg.split("but reading")[1][:60]
+    if msg.startswith("precedence"):
+        return "emodulus|temperature-precedence"
     if msg.startswith("stale"):
         eds = [e for e in p["edits"] if e[0] in ("set", "del")]
         ed = eds[-1] if eds else ["?", "?", "?"]
